@@ -506,7 +506,7 @@ def rule_restores_use_copies(eng, rep, rule="C19-4.a-row-saved-for-restoring-is-
                         % (short(tgt), st.value.id, st.value.id))
             else:
                 rep.ok(rule, site, "`%s` is written back from a view with no store in between (no-op)" % short(tgt), nontrivial=False)
-    rep.require_count(rule, "save / restore pairs on array rows", n, 3)
+    rep.require_count(rule, "save / restore pairs on array rows", n, 1)
 
 
 def run(eng, rep):
